@@ -28,7 +28,13 @@ pub(super) fn run_write(invocation: ToolInvocation, config: &BuiltinToolConfig) 
         Err(err) => return ToolOutput::failure(vec![err]),
     };
 
-    if path.file_name().is_none() {
+    // "", "." and "./" resolve to the workspace root itself (`file_name()` of `<root>/.` is the
+    // root's own name), and the temporary file of an atomic write would then be created next to
+    // the root, outside the workspace.
+    if !std::path::Path::new(&args.path)
+        .components()
+        .any(|c| matches!(c, std::path::Component::Normal(_)))
+    {
         return ToolOutput::failure(vec![
             "write failed: path does not name a file".to_string()
         ]);
